@@ -60,17 +60,6 @@ func verifStreamTranslatedChunks(shape string) (chunks [][]byte, markers []strin
 	return chunks, markers
 }
 
-// verifStreamSSE is an OpenAI chat-completion stream cut into one chunk per event (n content deltas).
-func verifStreamSSE(n int) [][]byte {
-	out := make([][]byte, 0, n+2)
-	for i := 0; i < n; i++ {
-		out = append(out, []byte(fmt.Sprintf("data: {\"id\":\"c1\",\"object\":\"chat.completion.chunk\",\"model\":\"m1\",\"choices\":[{\"index\":0,\"delta\":{\"content\":\"w%d \"},\"finish_reason\":null}]}\n\n", i)))
-	}
-	out = append(out, []byte("data: {\"id\":\"c1\",\"object\":\"chat.completion.chunk\",\"model\":\"m1\",\"choices\":[{\"index\":0,\"delta\":{},\"finish_reason\":\"stop\"}]}\n\n"))
-	out = append(out, []byte("data: [DONE]\n\n"))
-	return out
-}
-
 // verifStreamAbortPlan: what the backend does in an abort / leak scenario.
 func verifStreamAbortPlan(sc verifStreamScn) zzverif.Plan {
 	if sc.At == "prehdr" {
